@@ -583,6 +583,7 @@ var c16Known = []struct {
 	{"loopvar-global", "x := 0\nfor i := range 3\n    x = x + i\nend\n"},
 	{"loopvar-clobbers-outer", "r := 0\nif true\n    x := 10\n    for x := range 3\n        r = r + x\n    end\n    r = r + x\nend\n"},
 	{"loopvar-clobbers-outer", "x := 10\nr := 0\nfor x := range 3\n    r = r + x\nend\nr = r + x\n"},
+	{"loopvar-clobbers-outer", "x := 10\nr := 0\nif true\n    for x := range 3\n        r = r + x\n    end\n    r = r + x\nend\n"},
 	{"byte-strings", "s := \"äb\"\nt := s[0]\nt = t\n"},
 	{"byte-strings", "n := 0\nfor c := range \"äb\"\n    n = n + 1\n    if c == \"\"\n        n = 0\n    end\nend\n"},
 	{"zero-step", "x := 0\nfor range 1 5 0\n    x = 1\nend\n"},
